@@ -248,6 +248,22 @@ namespace
             add( res, "rematch", s.pos ? helpers( in, a, *s.pos ) : std::string( " NOACTION" ) );
          }
       }
+      if( c.eol != "cr_crlf" ) {
+         // line endings consumed by the eol rule itself (bump_to_next_line with the length of the ending).  Optional way: when
+         // K lies between the CR and the LF of a CRLF the walk steps over it and reports nothing.  Not under cr_crlf, where
+         // eager and lazy tracking disagree on the column after CR LF (recorded under C06, semantics undecided upstream).
+         input_t in( a.data, a.data + a.size, "c19", c.b0, c.l0, c.c0 );
+         seen s;
+         g_left = a.size - K;
+         try {
+            (void)parse< seq< until< left_is, sor< eol, any > >, mark, must< failure > >, act >( in, s );
+         }
+         catch( const parse_error& ) {
+         }
+         if( s.pos ) {
+            add( res, "eol", helpers( in, a, *s.pos ) );
+         }
+      }
       for( const auto& e : res ) {
          std::printf( "M=%s E=%s I=%zu,%zu,%zu D=%s K=%zu B=%s W=%s%s\n", c.mode.c_str(), c.eol.c_str(), c.b0, c.l0, c.c0, c.hexdata.c_str(), K, byte_fn.c_str(), e.first.c_str(), e.second.c_str() );
       }
